@@ -160,6 +160,78 @@ func c16Ops() []c16Op {
 				_, brk, err := w.env.issuer.Evaluate(a[0])
 				return fmt.Sprint(hxv(brk), err == nil)
 			}},
+		{"type3 FinalizeToken(response)", func(w *c03World, r *Rng) [][]byte {
+			resp := append([]byte{}, w.resp["resp3"]...)
+			if r.IntN(3) == 0 {
+				resp[r.IntN(len(resp))] ^= 1 << r.IntN(8) // a response that fails authentication
+			}
+			return [][]byte{resp}
+		}, func(w *c03World, a [][]byte) string {
+			tok, err := w.st3.FinalizeToken(a[0])
+			tok2, err2 := w.st3.FinalizeToken(a[0]) // the caller retries with the same bytes
+			return fmt.Sprint(hxv(tok.Marshal()), err == nil, hxv(tok2.Marshal()), err2 == nil)
+		}},
+		{"type5 FinalizeTokens(response)", func(w *c03World, r *Rng) [][]byte {
+			resp := append([]byte{}, w.resp["resp5"]...)
+			if r.IntN(3) == 0 {
+				resp[r.IntN(len(resp))] ^= 1 << r.IntN(8)
+			}
+			return [][]byte{resp}
+		}, func(w *c03World, a [][]byte) string {
+			ts, err := w.st5.FinalizeTokens(a[0])
+			out := fmt.Sprint(err == nil)
+			for _, t := range ts {
+				out += hxv(t.Marshal())
+			}
+			ts, err = w.st5.FinalizeTokens(a[0])
+			return out + fmt.Sprint(err == nil, len(ts))
+		}},
+		{"type1/type2 FinalizeToken(response), retried", func(w *c03World, r *Rng) [][]byte {
+			r1, r2 := append([]byte{}, w.resp["resp1"]...), append([]byte{}, w.resp["resp2"]...)
+			if r.IntN(3) == 0 {
+				r1[r.IntN(len(r1))] ^= 1 << r.IntN(8)
+				r2[r.IntN(len(r2))] ^= 1 << r.IntN(8)
+			}
+			return [][]byte{r1, r2}
+		}, func(w *c03World, a [][]byte) string {
+			t1, e1 := w.st1.FinalizeToken(a[0])
+			t2, e2 := w.st2.FinalizeToken(a[1])
+			t1b, e1b := w.st1.FinalizeToken(a[0])
+			t2b, e2b := w.st2.FinalizeToken(a[1])
+			return fmt.Sprint(hxv(t1.Marshal()), hxv(t2.Marshal()), e1 == nil, e2 == nil, hxv(t1b.Marshal()), hxv(t2b.Marshal()), e1b == nil, e2b == nil)
+		}},
+		// truncated encodings: a decoder that reads past len(data) would pick up the spare capacity
+		{"decoders on truncated input", func(w *c03World, r *Rng) [][]byte {
+			var out [][]byte
+			cut := []int{1, 1, 2, 3, 4, 5, 8, 9}[r.IntN(8)]
+			for _, n := range []string{"req1", "req2", "req3", "req5", "inner", "batch", "batchresp", "challenge", "tok1", "tok2", "tok3", "tok5", "resp5", "encap", "spki", "varint-bytes"} {
+				b := w.resp[n]
+				out = append(out, append([]byte{}, b[:len(b)-min(cut, len(b))]...))
+			}
+			return out
+		}, func(w *c03World, a [][]byte) string {
+			q1, q2, q3, q5, qi, qb := &type1.BasicPrivateTokenRequest{}, &type2.BasicPublicTokenRequest{}, &type3.RateLimitedTokenRequest{}, &type5.BatchedPrivateTokenRequest{}, &type3.InnerTokenRequest{}, &batched.BatchedTokenRequest{}
+			out := fmt.Sprint(q1.Unmarshal(a[0]), q2.Unmarshal(a[1]), q3.Unmarshal(a[2]), q5.Unmarshal(a[3]), qi.Unmarshal(a[4]), qb.Unmarshal(a[5]))
+			out += hxv(q1.BlindedReq) + hxv(q2.BlindedReq) + hxv(q3.EncryptedTokenRequest) + hxv(q3.Signature) + hxList(q5.BlindedReq)
+			for _, tr := range qb.VerifRequests() {
+				out += hxv(tr.Marshal())
+			}
+			rs, e1 := batched.UnmarshalBatchedTokenResponses(a[6])
+			out += hxList(rs) + fmt.Sprint(e1 == nil)
+			ch, e2 := tokens.UnmarshalTokenChallenge(a[7])
+			out += fmt.Sprint(e2 == nil, ch.IssuerName, ch.OriginInfo, hxv(ch.RedemptionNonce))
+			t1, e3 := type1.UnmarshalPrivateToken(a[8])
+			t2, e4 := type2.UnmarshalToken(a[9])
+			t3, e5 := type3.UnmarshalToken(a[10])
+			t5, e6 := type5.UnmarshalBatchedPrivateToken(a[11])
+			out += fmt.Sprint(e3 == nil, e4 == nil, e5 == nil, e6 == nil, hxv(t1.Authenticator), hxv(t2.Authenticator), hxv(t3.Authenticator), hxv(t5.Authenticator))
+			ts, e7 := w.st5.FinalizeTokens(a[12])
+			out += fmt.Sprint(e7 == nil, len(ts))
+			_, e8 := type3.UnmarshalEncapKey(a[13])
+			_, e9 := util.UnmarshalTokenKey(a[14])
+			v, n := quicwire.ConsumeVarintBytes(a[15])
+			return out + fmt.Sprint(e8 == nil, e9 == nil, hxv(v), n)
+		}},
 		{"quicwire Append*/Consume*", func(w *c03World, r *Rng) [][]byte { return [][]byte{r.Bytes(5), r.Bytes(40)} },
 			func(w *c03World, a [][]byte) string {
 				// the destination may be appended to (that is the contract) — only its first len bytes must stay
